@@ -337,12 +337,12 @@ def keep_between_queries(rep, fnf):
         rep.broke('dispatch matrix has no cell outside Probe/Train/Query/Reset')
     # ... and no cell at all stores into the link field of an observation that is already in the list: the list is extended
     # at its head and released from its head, a rewritten link cuts the observations behind it off (never reported)
-    from .safety import link_overlap
+    from .safety import link_stores
     m = 0
     for region, lst in sorted(sums.items()):
         for s in lst:
             m += 1
-            ls = [(e[2], e[3]) for e, _ in effects(s.st, 'weak-store') if e[1] == 'SEEN' and link_overlap(fs2, e[2], e[3])]
+            ls = link_stores(fs2, s.st)
             rep.check(not ls, 'R07.j', 'link-rewritten|%s' % region,
                       'a frame (ToS %s, opcode %s) stores into the link field of an already recorded observation (offset/size %s): the observations behind it '
                       'are cut off the list and never reported' % (s.tos, s.op, ls), function='parseFrame', file=fnf)
